@@ -39,6 +39,55 @@ def call_names(fn):
     return out
 
 
+
+def xor_keystream(xe):
+    """Is every byte of the data XOR-ed with the key *repeated over the whole data*?  Two spellings are read: the in-place
+    loop `for i, k in zip(range(len(buf)), cycle(key)): buf[i] ^= k` and the generator `bytes(b ^ k for b, k in zip(data,
+    cycle(key)))`.  What makes the rule: the key side of the zip is cycle(<key attribute>) (zip stops at its shortest
+    argument: without cycle only len(key) bytes are produced), the other side enumerates the whole data, and the two loop
+    variables are what is XOR-ed."""
+    why = "no XOR of the data with the repeated key found"
+    loops = []
+    for x in ast.walk(xe.node):
+        if isinstance(x, ast.For):
+            loops.append((x.target, x.iter, x))
+        elif isinstance(x, (ast.GeneratorExp, ast.ListComp)) and len(x.generators) == 1 and not x.generators[0].ifs:
+            loops.append((x.generators[0].target, x.generators[0].iter, x))
+    for tgt, it, owner in loops:
+        if not (isinstance(it, ast.Call) and ast.unparse(it.func) == "zip" and len(it.args) == 2 and isinstance(tgt, ast.Tuple) and len(tgt.elts) == 2
+                and all(isinstance(e, ast.Name) for e in tgt.elts)):
+            continue
+        sides = list(zip(tgt.elts, it.args))
+        key_side = [(v, a) for v, a in sides if isinstance(a, ast.Call) and ast.unparse(a.func).endswith("cycle") and len(a.args) == 1
+                    and isinstance(a.args[0], ast.Attribute) and isinstance(a.args[0].value, ast.Name) and a.args[0].value.id == xe.self_name]
+        if len(key_side) != 1:
+            if any(isinstance(a, ast.Attribute) and isinstance(a.value, ast.Name) and a.value.id == xe.self_name for _, a in sides):
+                why = "the key is zipped with the data without cycle(): zip stops at the shorter one, only len(key) bytes are processed"
+            continue
+        kvar = key_side[0][0]
+        dvar, darg = [(v, a) for v, a in sides if v is not kvar][0]
+        indexed = isinstance(darg, ast.Call) and ast.unparse(darg.func) == "range" and len(darg.args) == 1 and isinstance(darg.args[0], ast.Call) \
+            and ast.unparse(darg.args[0].func) == "len" and len(darg.args[0].args) == 1
+        if indexed:
+            buf = ast.unparse(darg.args[0].args[0])
+            body = [st for st in getattr(owner, "body", []) if isinstance(st, ast.AugAssign) and isinstance(st.op, ast.BitXor) and isinstance(st.target, ast.Subscript)]
+            if body and isinstance(body[0].target.slice, ast.Name) and body[0].target.slice.id == dvar.id and isinstance(body[0].value, ast.Name) \
+                    and body[0].value.id == kvar.id and ast.unparse(body[0].target.value) == buf:
+                return True, "every index of the data is XOR-ed with the key repeated over it"
+            why = "the loop over the data indices does not XOR buf[i] with the key byte"
+            continue
+        if isinstance(darg, ast.Name) and isinstance(owner, (ast.GeneratorExp, ast.ListComp)):
+            e = owner.elt
+            if isinstance(e, ast.BinOp) and isinstance(e.op, ast.BitXor) and {ast.unparse(e.left), ast.unparse(e.right)} == {dvar.id, kvar.id}:
+                par = getattr(owner, "_parent", None)
+                if isinstance(par, ast.Call) and ast.unparse(par.func) in ("bytes", "bytearray"):
+                    return True, "every byte of the data is XOR-ed with the key repeated over it"
+                why = "the XOR-ed bytes are not collected into bytes(...)"
+            else:
+                why = "the generator over (data, key) does not XOR the two bytes"
+    return False, why
+
+
 def check(ctx):
     an, model = ctx.an, ctx.model
     calls = an.summary(CALLS)
@@ -180,21 +229,7 @@ def check(ctx):
             and isinstance(v.args[0], ast.Name) and v.args[0].id == xd.positional_params[1]
     ctx.ob("xor.decrypt-is-encrypt", xd, "return self.encrypt(ciphertext)", okd, "XOR decryption is the same transformation" if okd else
            "XorProvider.decrypt is no longer encrypt applied to its input")
-    xor_ok, why = False, "no `buf[i] ^= k` over zip(range(len(buf)), cycle(key)) found"
-    for x in ast.walk(xe.node):
-        if isinstance(x, ast.For) and isinstance(x.iter, ast.Call) and ast.unparse(x.iter.func) == "zip" and len(x.iter.args) == 2:
-            a0, a1 = x.iter.args
-            rng = isinstance(a0, ast.Call) and ast.unparse(a0.func) == "range" and len(a0.args) == 1 and isinstance(a0.args[0], ast.Call) \
-                and ast.unparse(a0.args[0].func) == "len"
-            cyc = isinstance(a1, ast.Call) and ast.unparse(a1.func).endswith("cycle") and len(a1.args) == 1 and isinstance(a1.args[0], ast.Attribute)
-            body = [s for s in x.body if isinstance(s, ast.AugAssign) and isinstance(s.op, ast.BitXor) and isinstance(s.target, ast.Subscript)]
-            if rng and cyc and body and isinstance(x.target, ast.Tuple) and len(x.target.elts) == 2:
-                i, c = x.target.elts
-                s = body[0]
-                buf = ast.unparse(a0.args[0].args[0]) if a0.args[0].args else None
-                if isinstance(s.target.slice, ast.Name) and s.target.slice.id == i.id and isinstance(s.value, ast.Name) and s.value.id == c.id \
-                        and ast.unparse(s.target.value) == buf:
-                    xor_ok, why = True, "every index of the data is XOR-ed with the key repeated over it"
+    xor_ok, why = xor_keystream(xe)
     ctx.ob("xor.keystream", xe, "for i, c in zip(range(len(buf)), cycle(key)): buf[i] ^= c", xor_ok, why)
     for r in returns_of(an, xe):
         v = r.ast.value
@@ -244,3 +279,10 @@ def check(ctx):
     aes_init = model.method("AesProvider", "__init__")
     ctx.ob("reject.aes-unavailable", aes_init, "AES_AVAILABLE guard", any(n.kind == "raise" for n in an.cfg(aes_init).nodes),
            "constructing the AES provider without the cryptography package raises", nontrivial=False)
+
+    # ---------------------------------------------------------------- shared with C07: "for every 32-byte key ... across sessions"
+    # presupposes that the key a later session reads is byte-for-byte the key that was generated / stored
+    from . import c07
+    sub = type(ctx)(ctx.pid, ctx.an, ctx.tier)
+    c07.check(sub)
+    ctx.obligations.extend(o for o in sub.obligations if o.rule.split(".", 1)[1].split(".")[0] in ("verbatim", "generated-is-written-is-returned", "generated-length"))
